@@ -12,7 +12,8 @@ func notifierPubCheck(r *vrt.Result) string {
 	}
 	kind := ""
 	got := map[string][]string{}
-	var pubcall, pubret, subCancelCall, subCancelRet, pubCancelCall int64
+	var pubcall, pubret, pubCancelCall int64
+	subCancelCall, subCancelRet := map[int]int64{}, map[int]int64{}
 	panicked := ""
 	for _, e := range r.Events {
 		switch e.Kind {
@@ -25,9 +26,9 @@ func notifierPubCheck(r *vrt.Result) string {
 		case "pubret":
 			pubret = e.Seq
 		case "subcancel-call":
-			subCancelCall = e.Seq
+			subCancelCall[e.Int(0)] = e.Seq
 		case "subcancel-ret":
-			subCancelRet = e.Seq
+			subCancelRet[e.Int(0)] = e.Seq
 		case "pubcancel-call":
 			pubCancelCall = e.Seq
 		case "publish-panic":
@@ -59,6 +60,7 @@ func notifierPubCheck(r *vrt.Result) string {
 	case "nil":
 		want["any"], want["ptr"] = "<nil>", "true"
 	}
+	ctxOf := map[string]int{"any": 1, "str": 2}
 	pubCancelled := pubCancelCall != 0 // cancelled at some point: every delivery becomes optional
 	for _, name := range []string{"int", "any", "str", "ptr", "other"} {
 		g := got[name]
@@ -76,18 +78,18 @@ func notifierPubCheck(r *vrt.Result) string {
 			return fmt.Sprintf("wrong-value: subscription %q received %v, published %s", name, g, w)
 		}
 		optional := pubCancelled
-		if name == "any" && subCancelCall != 0 {
-			if subCancelRet != 0 && subCancelRet < pubcall {
+		if c := ctxOf[name]; c != 0 && subCancelCall[c] != 0 {
+			if subCancelRet[c] != 0 && subCancelRet[c] < pubcall {
 				// its context was cancelled before the publish began: not eligible
 				if len(g) != 0 {
-					return fmt.Sprintf("delivered-to-cancelled: the subscription whose context was cancelled before the publish received %v", g)
+					return fmt.Sprintf("delivered-to-cancelled: subscription %q, whose context was cancelled before the publish, received %v", name, g)
 				}
 				continue
 			}
 			optional = true
 		}
 		if len(g) == 0 && !optional {
-			return fmt.Sprintf("not-delivered: eligible subscription %q received nothing although Publish returned", name)
+			return fmt.Sprintf("not-delivered: eligible subscription %q received nothing although Publish returned and neither its context nor the publish context was cancelled", name)
 		}
 	}
 	if len(r.Leaked) > 0 {
